@@ -173,8 +173,8 @@ PROPS["C07"] = {
 }
 PROPS["C01"] = {
     "translators": ["consts", "tower"],
-    "lean_targets": prop_modules("C01", extra=("JediVerif.Properties.C01b", "JediVerif.Properties.C01c")),
-    "theorems": lambda: thms("C01", extra=(("JediVerif.Properties.C01b", "Jedi.C01"), ("JediVerif.Properties.C01c", "Jedi.C01"))),
+    "lean_targets": prop_modules("C01", extra=("JediVerif.Properties.C01b", "JediVerif.Properties.C01c", "JediVerif.Properties.C01d")),
+    "theorems": lambda: thms("C01", extra=(("JediVerif.Properties.C01b", "Jedi.C01"), ("JediVerif.Properties.C01c", "Jedi.C01"), ("JediVerif.Properties.C01d", "Jedi.C01"))),
     "streams": stream_set([("pairing", 6)], ["asm", "portable32"], ALLCFG, scale=3),
     "filter": lambda l: not l.startswith(("pairing_sum", "pairing_prep", "prepare")),
     "hypotheses": ["H-bilinear: the textbook optimal-ate function of Spec/Pairing.lean is bilinear and non-degenerate on G1 x G2 (Vercauteren 2010); not provable with the Lean libraries present"],
